@@ -76,10 +76,11 @@ func c13Exec(input string) string {
 
 // c13Sched walks the protocol simulator with a fixed policy up to quiescence.
 // policy 0: a spawned writer runs to completion at once; 1: the caller runs until it blocks;
-// 2: random.
+// 2: random; 3: as 1, but every writer first takes its chunk and is held in mid-write.
 func c13Sched(g *hx.Gen, c int, ac bool, ops []string, policy int) []int {
 	s := newSim(c, ac, ops)
 	var sched []int
+	taken := map[int]int{}
 	for steps := 0; steps < 600 && !s.quiescent(); steps++ {
 		var en []int
 		for a := 0; a <= len(s.ws); a++ {
@@ -103,10 +104,22 @@ func c13Sched(g *hx.Gen, c int, ac bool, ops []string, policy int) []int {
 			}
 		case 1:
 			a = en[0]
+		case 3:
+			// a spawned writer takes its chunk (one step) and is then held in the middle of its
+			// write while the caller runs on until it blocks: Finalise's own synchronous write
+			// overtakes a background writer that fails only afterwards (seeded change C13-m10)
+			a = en[0]
+			for _, w := range en {
+				if w > 0 && taken[w] == 0 {
+					a = w
+					break
+				}
+			}
 		default:
 			a = en[g.Intn(len(en))]
 		}
 		s.step(a)
+		taken[a]++
 		sched = append(sched, a)
 	}
 	return sched
@@ -190,7 +203,7 @@ func c13Gen(g *hx.Gen) {
 				fault := fmt.Sprintf("%s:%d", pt, k)
 				ac := k%2 == 1
 				g.Case(c13Line(false, w.c, ac, false, ty, w.ops, nil, fault))
-				for pol := 0; pol < 2; pol++ {
+				for _, pol := range []int{0, 1, 3} {
 					g.Case(c13Line(true, w.c, ac, false, ty, w.ops, c13Sched(g, w.c, ac, w.ops, pol), fault))
 				}
 			}
